@@ -19,6 +19,7 @@ SCOPES = {
             'src/Georef.cpp', 'GeographicLib/Georef.hpp', 'src/OSGB.cpp', 'GeographicLib/OSGB.hpp'],
     'C20': ['src/Geoid.cpp', 'GeographicLib/Geoid.hpp'],
     'C17': ['GeographicLib/NearestNeighbor.hpp'],
+    'C07': ['src/Geocentric.cpp', 'GeographicLib/Geocentric.hpp', 'src/LocalCartesian.cpp', 'GeographicLib/LocalCartesian.hpp'],
 }
 # instance floors (about 80% of the counts confirmed on the verified tree)
 FLOORS = {
@@ -31,6 +32,7 @@ FLOORS = {
     'C20': dict(throws=14, x3fns=0, x4throws=0),
     'C13': dict(throws=200, x3fns=200, x4throws=15),
     'C17': dict(throws=12, x3fns=2, x4throws=0),
+    'C07': dict(throws=1, x3fns=1, x4throws=0),
 }
 
 
@@ -395,6 +397,27 @@ def _c11(ctx):
         _exc_rules(ctx, 'C11', with_lookup=False)
 
 
+def _c07(ctx):
+    from .rules import rotation
+    rot, nob = rotation.rule_ROT(ctx)
+    rot.floor('obligations of the rotation / rigid-motion clause', nob, 36)
+    return [rot] + _exc_rules(ctx, 'C07', with_lookup=False)
+
+
+def _c16(ctx):
+    from .rules import conserve
+    cons, nk, npaths = conserve.rule_CONS(ctx)
+    cons.floor('kernels', nk, 8)
+    cons.floor('paths', npaths, 20)
+    from .rules import quadrant
+    quad, ncase, nqp = quadrant.rule_QUAD(ctx)
+    quad.floor('function x quadrant cases', ncase, 48)
+    quad.floor('paths', nqp, 300)
+    octr, noct = quadrant.rule_OCT(ctx)
+    octr.floor('paths of atan2d', noct, 4)
+    return [cons, quad, octr]
+
+
 C19_CLASSES = {NSP + c for c in ('SphericalEngine', 'CircularEngine', 'SphericalHarmonic', 'SphericalHarmonic1',
                                   'SphericalHarmonic2', 'MagneticModel', 'MagneticCircle', 'GravityModel', 'GravityCircle',
                                   'NormalGravity')}
@@ -452,6 +475,8 @@ CHECKS = {
     'C20': _c20,
     'C11': _c11,
     'C19': _c19,
+    'C07': _c07,
+    'C16': _c16,
 }
 
 
